@@ -1,6 +1,7 @@
 package props
 
 import (
+	"context"
 	"fmt"
 	"io"
 	"sort"
@@ -202,6 +203,34 @@ func checkEntity(c *mon.Case, e *entity, faults bool) {
 		if len(extra) > 0 {
 			c.Violation("C06|fetched-beyond-entity|"+form.Name, "%s on %s %s fetched %d block(s) outside the entity, e.g. %s", form.Name, e.Kind, e.Name, len(extra), strings.Join(short(extra), " "))
 		}
+		if form.Name == "preload-reifier" && len(e.Blocks) > 0 {
+			// the caller's context is already cancelled: with a block source that honours it nothing can
+			// be loaded (an error is due); with one that serves regardless, success means everything fetched
+			for _, ignore := range []bool{false, true} {
+				cctx, cancel := context.WithCancel(bg)
+				cancel()
+				st.IgnoreCtx = ignore
+				st.ResetLog()
+				var cerr error
+				if !c.Guard("preload under a cancelled context", func() {
+					_, cerr = ls.KnownReifiers["unixfs-preload"](ipld.LinkContext{Ctx: cctx}, raw, ls)
+				}) {
+					continue
+				}
+				c.Count("cancelled_context_preloads", 1)
+				got := uniq(st.ReadCids())
+				miss := 0
+				for k := range want {
+					if !got[k] {
+						miss++
+					}
+				}
+				if cerr == nil && miss > 0 {
+					c.Violation("C06|partial-success|cancelled-context", "preload of %s %s (%d entity blocks) under a cancelled context (block source honours the context: %v) returned no error although %d entity blocks were not loaded", e.Kind, e.Name, len(want), !ignore, miss)
+				}
+			}
+			st.IgnoreCtx = false
+		}
 		if !faults {
 			continue
 		}
@@ -352,7 +381,7 @@ func TestC06(t *testing.T) {
 				for _, b := range ent {
 					allowed[b.String()] = true
 				}
-				for ti, target := range []selbuilder.SelectorSpec{unixfsnode.MatchUnixFSPreloadSelector, unixfsnode.MatchUnixFSEntitySelector} {
+				for ti, target := range []selbuilder.SelectorSpec{unixfsnode.MatchUnixFSPreloadSelector, unixfsnode.MatchUnixFSEntitySelector, unixfsnode.MatchUnixFSEntitySelector} {
 					st := base.Clone()
 					st.Logging = true
 					ls := st.LinkSystem(true)
@@ -365,7 +394,17 @@ func TestC06(t *testing.T) {
 							werr = e
 							return
 						}
-						werr = progressFor(ls).WalkMatching(raw, sel, unixfsnode.BytesConsumingMatcher)
+						prog := progressFor(ls)
+						if ti == 2 {
+							// a walk resumed exactly at the entity (as after an interruption)
+							var segs []datamodel.PathSegment
+							for _, sg := range n.Path {
+								segs = append(segs, datamodel.PathSegmentOfString(sg))
+							}
+							prog.Cfg.StartAtPath = datamodel.NewPath(segs)
+							c.Count("resumed_walks", 1)
+						}
+						werr = prog.WalkMatching(raw, sel, unixfsnode.BytesConsumingMatcher)
 					})
 					if werr != nil {
 						c.Violation("C06|access-error|path", "path %q + target %d: %v", strings.Join(n.Path, "/"), ti, werr)
